@@ -3546,13 +3546,13 @@ class TLSConnection(TLSRecordLayer):
 
         #If client's version is too low, reject it
         real_version = clientHello.client_version
+        ext = clientHello.getExtension(ExtensionType.supported_versions)
+        if ext and not ext.versions:
+            for result in self._sendError(
+                    AlertDescription.decode_error,
+                    "Empty supported_versions extension"):
+                yield result
         if real_version >= (3, 3):
-            ext = clientHello.getExtension(ExtensionType.supported_versions)
-            if ext and not ext.versions:
-                for result in self._sendError(
-                        AlertDescription.decode_error,
-                        "Empty supported_versions extension"):
-                    yield result
             if ext:
                 for v in ext.versions:
                     if v in KNOWN_VERSIONS and v > real_version:
